@@ -710,7 +710,7 @@ func (p *prop) Run(line string) core.Outcome {
 		return core.Outcome{Impl: "harness-error", Failures: []core.Failure{{Class: "harness-env", What: p.envErr.Error()}}}
 	}
 	f := strings.Fields(line)
-	if len(f) != 6 || f[0] != "seq" || line != strings.Join(f, " ") {
+	if len(f) != 6 || f[0] != "seq" {
 		return core.Outcome{Impl: "bad-op", Tags: []string{"trivial", "bad-op"}}
 	}
 	sc, ok := parseScenario(f[1:5])
